@@ -3,6 +3,7 @@ import SlipVerif.Lemmas.JsonPath
 import SlipVerif.Lemmas.JsonLisp
 import SlipVerif.Lemmas.JsonText
 import SlipVerif.Lemmas.JsonScan
+import SlipVerif.Lemmas.JsonConfig
 /-
   C18 — property theorems about the JSON model (Model/Json.lean, JsonText.lean, JsonLisp.lean),
   the model the correspondence harness (harness/cmd/vh/c18*.go) runs against the implementation.
@@ -317,5 +318,59 @@ theorem scanLeaves_iff (j : J) (pv : Path × J) :
 /-- the document itself is reported first, with the empty path -/
 theorem scan_root (j : J) : (scan j).head? = some ([], j) := by
   cases j <;> simp [scan]
+
+/-! ## the configuration as state: *bag-time-format*, *bag-time-wrap* and the stored converter -/
+
+/-- After any history of settings the stored converter is the one the current values of the two
+    variables call for: what a parse does never depends on earlier values. -/
+theorem conv_is_derived (ops : List CfgOp) :
+    (runHistory ops Cfg.init).conv = derive (runHistory ops Cfg.init).format (runHistory ops Cfg.init).wrap :=
+  runHistory_coherent ops Cfg.init rfl
+
+/-- Two histories that end with the same values of the variables end in the same configuration. -/
+theorem history_independent (ops₁ ops₂ : List CfgOp)
+    (hf : (runHistory ops₁ Cfg.init).format = (runHistory ops₂ Cfg.init).format)
+    (hw : (runHistory ops₁ Cfg.init).wrap = (runHistory ops₂ Cfg.init).wrap) :
+    runHistory ops₁ Cfg.init = runHistory ops₂ Cfg.init := by
+  have h1 := conv_is_derived ops₁
+  have h2 := conv_is_derived ops₂
+  rw [hf, hw] at h1
+  cases hc1 : runHistory ops₁ Cfg.init
+  cases hc2 : runHistory ops₂ Cfg.init
+  simp_all
+
+/-- Setting *bag-time-format* back to nil switches every converter off, whatever was set before
+    and whatever *bag-time-wrap* holds; with both variables back at nil the configuration is the
+    one of a process that never touched them. -/
+theorem reset_restores_default (ops : List CfgOp) :
+    (setFormat "" (runHistory ops Cfg.init)).conv = .off ∧
+    runHistory (ops ++ [.format "", .wrap ""]) Cfg.init = Cfg.init := by
+  constructor
+  · simp only [setFormat]
+    rw [updateConverter_conv]
+    simp [derive]
+  · have hcoh := runHistory_coherent (ops ++ [.format "", .wrap ""]) Cfg.init rfl
+    have hf : (runHistory (ops ++ [.format "", .wrap ""]) Cfg.init).format = "" := by
+      simp only [runHistory, List.foldl_append, List.foldl_cons, List.foldl_nil, applyOp, setWrap, setFormat]
+      rw [(updateConverter_vars _).1]
+      simp only []
+      rw [(updateConverter_vars _).1]
+    have hw : (runHistory (ops ++ [.format "", .wrap ""]) Cfg.init).wrap = "" := by
+      simp only [runHistory, List.foldl_append, List.foldl_cons, List.foldl_nil, applyOp, setWrap, setFormat]
+      rw [(updateConverter_vars _).2]
+    unfold Cfg.Coherent at hcoh
+    rw [hf, hw] at hcoh
+    cases hc : runHistory (ops ++ [.format "", .wrap ""]) Cfg.init
+    simp_all [Cfg.init, derive]
+
+/-- With the converter off a parse entry point holds exactly what the parser read. -/
+theorem parseWith_default (text : String) : parseWith Cfg.init text = parse text := by
+  unfold parseWith
+  cases parse text with
+  | error e => rfl
+  | ok j => simp [Except.map, Cfg.init, convertDoc_off]
+
+example : (runHistory [.format "second", .wrap "t", .format ""] Cfg.init).conv = .off := by decide
+example : (runHistory [.format "second"] Cfg.init).conv = .second := by decide
 
 end SlipVerif.Json
